@@ -373,7 +373,8 @@ class BlockCode(BlockToken):
 
     @staticmethod
     def start(line):
-        return line.replace('\t', '    ', 1).startswith('    ')
+        # a line made of spaces and tabs only is a blank line: it cannot begin an indented chunk
+        return line.replace('\t', '    ', 1).startswith('    ') and line.strip(' \t\r\n') != ''
 
     @classmethod
     def read(cls, lines):
@@ -381,8 +382,10 @@ class BlockCode(BlockToken):
         trailing_blanks = 0
         for line in lines:
             if line.strip() == '':
-                line_buffer.append(line.lstrip(' ') if len(line) < 5 else line[4:])
-                trailing_blanks = trailing_blanks + 1 if line == '\n' else 0
+                # a blank line keeps what lies beyond the four columns of indentation (a tab counts as indentation, too)
+                stripped = cls.strip(line)
+                line_buffer.append(stripped if stripped != line else line.lstrip(' '))
+                trailing_blanks = trailing_blanks + 1 if line.strip(' \t\r\n') == '' else 0
                 continue
             if not line.replace('\t', '    ', 1).startswith('    '):
                 lines.backstep()
